@@ -1060,6 +1060,10 @@ const LEX_EDGES: &[&str] = &[
     "%grmtools{allow_wholeline_comments}\n// todo", "%grmtools{allow_wholeline_comments}\n// todo\n", "%grmtools{allow_wholeline_comments}\n\n// a somewhat longer comment at the end of the text",
     "%grmtools{allow_wholeline_comments}\n%x STR\n// todo", "%grmtools{allow_wholeline_comments}\n//\u{e9}\u{e9}\u{e9}\u{e9}\u{e9}\u{e9}\u{e9}\u{e9}\u{e9}\u{e9}\u{e9}\u{e9}\u{e9}\u{e9}\u{e9}\u{e9}\u{e9}\u{e9}a",
     "%grmtools{allow_wholeline_comments}\n%%\n// c", "%grmtools{allow_wholeline_comments}\n%%\na 'A'\n// c", "%grmtools{allow_wholeline_comments}\n%%\n// c\na 'A'", "%grmtools{allow_wholeline_comments}\n%%\na 'A' // c",
+    // numeric settings at and beyond the width of the option they set (u32 / usize)
+    "%grmtools{nest_limit: 4294967295}\n%%\na 'A'\n", "%grmtools{nest_limit: 4294967296}\n%%\na 'A'\n", "%grmtools{nest_limit: 4294967396}\n%%\n[a-z]+ \"ID\"\n",
+    "%grmtools{nest_limit: 18446744073709551615}\n%%\na 'A'\n", "%grmtools{size_limit: 18446744073709551615, dfa_size_limit: 4294967296}\n%%\na 'A'\n",
+    "%grmtools{size_limit: 0}\n%%\na 'A'\n", "%grmtools{dfa_size_limit: 0, nest_limit: 0}\n%%\n(a) 'A'\n",
     "%x STR\n// todo", "%%\n// c", "%%\na 'A'\n//", "%%\na", "%%\na ", "%%\na 'A", "%%\na \"A", "%%\na ;", "%%\n<", "%%\n<STR", "%%\n<STR>", "%%\n<STR>a", "%%\n<STR>a <", "%%\n<STR>a <+", "%%\n<STR>a <+STR", "%%\n<STR>a <+STR>",
     "%x STR\n%%\n<STR>a <-STR>'A'", "%x STR\n%%\n<STR,INITIAL>\u{e9} ;", "%%\n\u{e9}", "%%\n\\", "%%\na\\ 'A'", "%%\n\\\u{e9} 'A'", "%%\n\u{b}", "%%\na 'A'\u{b}b 'B'\n", "%%\r\na 'A'\r\n", "%%\n\n\n",
 ];
